@@ -1,13 +1,17 @@
 //go:build verif
 
 // Harness for the sshd processor properties (C05 C06 C07 C11 C17 C19): feeds generated
-// messages to the real ProcessEntry (directly and through SyslogIngester.Process), records
+// messages to ONE long-lived sshd processor, as the daemon does (NewSshdProcessor once, then every line
+// through ProcessSshdLogEntry, directly or through SyslogIngester.Process), records
 // the event written, the login forwarded, the counters and the return value, writes them as
-// Coq case files for the model and evaluates each property's oracle.
+// Coq case files for the model and evaluates each property's oracle.  Lines are repeated (the same
+// line several times in a row, A B A) since sshd legitimately prints identical lines; the writer may fail
+// for good or fail k times and then recover.  Mode "slow" (slow.go): hand-offs nobody takes for seconds.
 package main
 
 import (
 	"context"
+	"encoding/hex"
 	"encoding/json"
 	"errors"
 	"flag"
@@ -17,6 +21,7 @@ import (
 	"sort"
 	"strings"
 	"time"
+	"unicode/utf8"
 
 	"github.com/metal-toolbox/auditevent"
 	"github.com/prometheus/client_golang/prometheus"
@@ -50,6 +55,18 @@ type obsEvent struct {
 	When     time.Time         `json:"when"`
 	ptr      *auditevent.AuditEvent
 	Bad      string `json:"bad,omitempty"`
+	Failed   bool   `json:"write_failed,omitempty"` // the writer rejected this event: attempted, not emitted
+}
+
+// emitted returns the events the writer accepted (what the daemon's output would hold).
+func emitted(evs []obsEvent) []obsEvent {
+	var out []obsEvent
+	for _, e := range evs {
+		if !e.Failed {
+			out = append(out, e)
+		}
+	}
+	return out
 }
 
 type obsFwd struct {
@@ -68,10 +85,17 @@ type observation struct {
 }
 
 type encRec struct {
-	fail   bool
-	events []obsEvent
-	seq    *int
-	at     []int
+	fail     bool // every write fails
+	failLeft int  // the next failLeft writes fail, later ones work (a sink that recovers)
+	events   []obsEvent
+	seq      *int
+	at       []int
+	wrote    chan struct{} // if non-nil: signalled (non-blocking) after every Encode
+}
+
+// begin resets the per-line record of the long-lived encoder.
+func (e *encRec) begin(mode runMode, seq *int) {
+	e.fail, e.failLeft, e.events, e.at, e.seq = !mode.WriteOK, mode.FailFirst, nil, nil, seq
 }
 
 func (e *encRec) Encode(v any) error {
@@ -121,17 +145,32 @@ func (e *encRec) Encode(v any) error {
 			}
 		}
 	}
-	e.events = append(e.events, o)
-	e.at = append(e.at, *e.seq)
-	if e.fail {
-		return errInjected
+	failNow := e.fail
+	if e.failLeft > 0 {
+		e.failLeft--
+		failNow = true
 	}
 	// what the daemon's own writer (encoding/json) does with the event: an event that cannot be serialised
 	// is a write error there, so it is one here
-	if _, err := json.Marshal(ev); err != nil {
-		return fmt.Errorf("event cannot be serialised: %w", err)
+	var serr error
+	if !failNow {
+		if _, err := json.Marshal(ev); err != nil {
+			serr = fmt.Errorf("event cannot be serialised: %w", err)
+		}
 	}
-	return nil
+	o.Failed = failNow || serr != nil
+	e.events = append(e.events, o)
+	e.at = append(e.at, *e.seq)
+	if e.wrote != nil {
+		select {
+		case e.wrote <- struct{}{}:
+		default:
+		}
+	}
+	if failNow {
+		return errInjected
+	}
+	return serr
 }
 
 type runMode struct {
@@ -140,7 +179,13 @@ type runMode struct {
 	Framed  bool `json:"framed"`
 	Pad     int  `json:"pad"`
 	Debug   bool `json:"debug_logging,omitempty"` // the sshd package logger has DEBUG enabled
+	// the first FailFirst writes of this line are rejected, later ones accepted (a sink that recovers); with code
+	// that writes once per line this is a failed write
+	FailFirst int `json:"fail_first_writes,omitempty"`
 }
+
+// writeFails: the (first) write of this line's event is rejected
+func (m runMode) writeFails() bool { return !m.WriteOK || m.FailFirst > 0 }
 
 func counters(reg *prometheus.Registry) map[string]float64 {
 	out := map[string]float64{}
@@ -168,15 +213,37 @@ func counters(reg *prometheus.Registry) map[string]float64 {
 var sharedReg = prometheus.NewRegistry()
 var sharedPM = metrics.NewPrometheusMetricsProviderForRegisterer(sharedReg)
 
-// runOne processes (tok, msg) on the real processor.
+// The long-lived part, as in the daemon (cmd/namedpipe.go): ONE logins channel (unbuffered), ONE event writer,
+// ONE metrics provider, ONE sshd processor built once by NewSshdProcessor with a context that is never
+// cancelled, ONE syslog ingester holding it.  Every line of the run goes through this processor's
+// ProcessSshdLogEntry, so state kept across lines (a remembered previous record, caches, pools) is exercised.
+type procEnv struct {
+	logins chan common.RemoteUserLogin
+	enc    *encRec
+	p      sshd.SshdProcessor
+	si     *syslog.SyslogIngester
+}
+
+var env = newProcEnv(sharedPM)
+
+func newProcEnv(pm *metrics.PrometheusMetricsProvider) *procEnv {
+	e := &procEnv{logins: make(chan common.RemoteUserLogin), enc: &encRec{seq: new(int)}}
+	e.p = sshd.NewSshdProcessor(context.Background(), e.logins, nodeName, machineID, auditevent.NewAuditEventWriter(e.enc), pm)
+	e.si = &syslog.SyslogIngester{SshdProcessor: e.p}
+	return e
+}
+
+// runOne processes (tok, msg) on the long-lived processor.
 func runOne(tok, msg string, mode runMode) observation {
 	// one long-lived registry and provider for the whole run, as in the daemon: counters are
 	// read before and after each line
-	reg, pm := sharedReg, sharedPM
+	reg := sharedReg
 	sshd.SetLogger(hutil.Logger(mode.Debug))
 	seq := 0
-	enc := &encRec{fail: !mode.WriteOK, seq: &seq}
-	logins := make(chan common.RemoteUserLogin) // unbuffered, as in cmd/namedpipe.go
+	enc := env.enc
+	enc.begin(mode, &seq)
+	logins := env.logins
+	// the context of this call (what the ingester passes on); the processor's own context stays live
 	ctx, cancel := context.WithCancel(context.Background())
 	defer cancel()
 	var fwds []obsFwd
@@ -186,14 +253,11 @@ func runOne(tok, msg string, mode runMode) observation {
 			defer close(recvDone)
 			for {
 				select {
-				case l, ok := <-logins:
-					if !ok {
-						return
-					}
+				case l := <-logins:
 					seq++
 					f := obsFwd{PID: l.PID, Cred: l.CredUserID}
 					if n := len(enc.events); n > 0 {
-						f.SameEvt = l.Source == enc.events[n-1].ptr
+						f.SameEvt = l.Source == enc.events[n-1].ptr && !enc.events[n-1].Failed
 						f.AfterEnc = enc.at[n-1] < seq
 					}
 					fwds = append(fwds, f)
@@ -206,7 +270,6 @@ func runOne(tok, msg string, mode runMode) observation {
 		cancel() // cancelled while the hand-off would block on an unready correlator
 		close(recvDone)
 	}
-	p := sshd.NewSshdProcessor(ctx, logins, nodeName, machineID, auditevent.NewAuditEventWriter(enc), pm)
 	before := counters(reg)
 	var obs observation
 	obs.T0 = time.Now()
@@ -218,10 +281,9 @@ func runOne(tok, msg string, mode runMode) observation {
 		}()
 		var err error
 		if mode.Framed {
-			si := syslog.SyslogIngester{SshdProcessor: p}
-			err = si.Process(ctx, tok+" "+strings.Repeat(" ", mode.Pad)+msg+"\n")
+			err = env.si.Process(ctx, tok+" "+strings.Repeat(" ", mode.Pad)+msg+"\n")
 		} else {
-			err = p.ProcessSshdLogEntry(ctx, sshd.SshdLogEntry{Message: msg, PID: tok})
+			err = env.p.ProcessSshdLogEntry(ctx, sshd.SshdLogEntry{Message: msg, PID: tok})
 		}
 		switch {
 		case err == nil:
@@ -345,7 +407,7 @@ func coqCase(tok, msg string, mode runMode, o observation) (string, string) {
 	if !ok {
 		return "", "unexpected error returned: " + o.Ret
 	}
-	return fmt.Sprintf("(SCase %s %s %s %s %d %s %s %s)", hutil.CoqStr(tok), hutil.CoqStr(msg), hutil.CoqBool(mode.WriteOK), hutil.CoqBool(mode.Ready),
+	return fmt.Sprintf("(SCase %s %s %s %s %d %s %s %s)", hutil.CoqStr(tok), hutil.CoqStr(msg), hutil.CoqBool(!mode.writeFails()), hutil.CoqBool(mode.Ready),
 		rc, hutil.CoqList(evs), hutil.CoqList(fw), hutil.CoqList(ms)), ""
 }
 
@@ -355,6 +417,28 @@ type caseDesc struct {
 	Tok  string  `json:"pid_token"`
 	Gen  genLine `json:"input"`
 	Mode runMode `json:"mode"`
+	// JSON cannot carry bytes that are not valid UTF-8: such lines / tokens are also stored in hex, and a replay
+	// restores them byte for byte
+	LineHex string `json:"line_hex,omitempty"`
+	TokHex  string `json:"pid_token_hex,omitempty"`
+}
+
+func (d *caseDesc) seal() {
+	if !utf8.ValidString(d.Gen.Line) {
+		d.LineHex = hex.EncodeToString([]byte(d.Gen.Line))
+	}
+	if !utf8.ValidString(d.Tok) {
+		d.TokHex = hex.EncodeToString([]byte(d.Tok))
+	}
+}
+
+func (d *caseDesc) unseal() {
+	if b, err := hex.DecodeString(d.LineHex); err == nil && d.LineHex != "" {
+		d.Gen.Line = string(b)
+	}
+	if b, err := hex.DecodeString(d.TokHex); err == nil && d.TokHex != "" {
+		d.Tok = string(b)
+	}
 }
 
 func main() {
@@ -362,6 +446,8 @@ func main() {
 	n := flag.Int("n", 400, "number of cases")
 	prop := flag.String("prop", "C06", "property")
 	replay := flag.String("replay", "", "replay file")
+	modeFlag := flag.String("mode", "", "\"\" = generated lines on the long-lived processor; slow = hand-offs nobody takes for a while (C05)")
+	delays := flag.String("delays", "150,700,1500", "mode slow: milliseconds during which nobody receives, comma separated")
 	flag.Parse()
 	sshd.SetLogger(zap.NewNop().Sugar())
 	seed := hutil.SeedFromEnv()
@@ -369,6 +455,10 @@ func main() {
 		os.Exit(doReplay(*replay, *prop))
 	}
 	r := hutil.NewRand(seed ^ hashStr(*prop))
+	if *modeFlag == "slow" {
+		slowStage(*prop, seed, r, *delays, *out)
+		return
+	}
 	sum := hutil.NewSummary(*prop, seed, ruleText(*prop))
 	cases := &hutil.CaseFile{Dir: *out, Stem: "cases_sshd", PerFile: 60,
 		Header: "From Coq Require Import Ascii String List Bool Arith ZArith.\nImport ListNotations.\nFrom AM Require Import Lib.Bytes Model.SshdProc Model.SshdCheck.\n",
@@ -376,10 +466,52 @@ func main() {
 	// the lines processed before a failing one, in this process: a failure may depend on what came before
 	// (state kept across lines: pools, caches, counters); replays feed them first
 	var history []caseDesc
+	// sshd legitimately prints byte-identical lines from one process (every wrong password on one connection,
+	// repeated refusals): a generated case is followed, now and then, by itself (2-4 times in a row) or by
+	// another line and itself again (A B A, A B A B), B being fresh or A under another PID.  Every line, repeated
+	// or not, is judged on its own by the property's oracle.
+	var queue []caseDesc
+	gi := 0
 	for i := 0; i < *n; i++ {
-		g, tok, mode := genCase(r, *prop, i)
+		var desc caseDesc
+		if len(queue) > 0 {
+			desc, queue = queue[0], queue[1:]
+			sum.Dist("repeated_line")
+		} else {
+			g, tok, mode := genCase(r, *prop, gi)
+			gi++
+			desc = caseDesc{Tok: tok, Gen: g, Mode: mode}
+			desc.seal()
+			if r.Chance(1, 7) {
+				a := desc
+				switch r.Intn(6) {
+				case 0:
+					queue = []caseDesc{a}
+				case 1:
+					queue = []caseDesc{a, a}
+				case 2:
+					queue = []caseDesc{a, a, a}
+				case 3, 4:
+					g2, tok2, mode2 := genCase(r, *prop, gi)
+					gi++
+					b := caseDesc{Tok: tok2, Gen: g2, Mode: mode2}
+					if r.Chance(1, 3) && !(b.Mode.Framed && strings.Contains(a.Tok, " ")) {
+						b.Tok = a.Tok // another message from the SAME process (a failed attempt, then the next one)
+					}
+					b.seal()
+					queue = []caseDesc{b, a}
+					if r.Bool() {
+						queue = append(queue, b)
+					}
+				default: // the same message from another process in between
+					b := a
+					b.Tok, b.TokHex = genPidToken(r, false), ""
+					queue = []caseDesc{b, a}
+				}
+			}
+		}
+		g, tok, mode := desc.Gen, desc.Tok, desc.Mode
 		o := runOne(tok, g.Line, mode)
-		desc := caseDesc{Tok: tok, Gen: g, Mode: mode}
 		prev := history
 		history = append(history, desc)
 		if len(history) > 40 {
@@ -407,6 +539,9 @@ func main() {
 		sum.Dist("ret_" + strings.SplitN(o.Ret, ":", 2)[0])
 		if !mode.WriteOK {
 			sum.Dist("mode_write_failure")
+		}
+		if mode.FailFirst > 0 {
+			sum.Dist(fmt.Sprintf("mode_writer_recovers_after_%d", mode.FailFirst))
 		}
 		if mode.Debug {
 			sum.Dist("mode_debug_logging")
@@ -440,24 +575,46 @@ func hashStr(s string) uint64 {
 
 func ruleText(prop string) string {
 	return "messages rendered from sshd's format strings with generated field values (account names incl. unicode and words of the message, IPv4/IPv6/zone ids/host names, ports, all key types and lower-case/underscore/'ssh'-prefixed names of the class [A-Za-z0-9_-], SHA256/MD5 fingerprints incl. '=' padding, key IDs with spaces/parentheses/'serial'/'(serial N)'/' from A port N'/partial ' ssh2: ' fragments (domain no_ssh_frag of C06_accepted_cert), forged fragments in the account of accepted lines, serials to 2^64-1, paths with spaces), " +
-		"hostile names (C17), arbitrary bytes and systematic mutations (C11), PID tokens (valid, signed, overflowing, empty, non-numeric), write failure and cancelled hand-off modes (C05), framed delivery through SyslogIngester.Process (C07); " +
-		"each case runs on the real processor with a private counter registry; the " + prop + " oracle is evaluated from the generated fields; non-trivial = the case makes the implementation write an event; distinct by (token, line, mode)"
+		"hostile names (C17; incl. every prefix/suffix of sshd's own phrases, empty names, escape-looking text such as #012 \\n %0a &#10;), arbitrary bytes and systematic mutations (C11), PID tokens (valid, signed, overflowing, empty, non-numeric), write failure, a writer that recovers after 1-2 rejected writes and cancelled hand-off modes (C05, C19), framed delivery through SyslogIngester.Process (C07, C17, C11); " +
+		"all lines of a run go through ONE long-lived processor (NewSshdProcessor once, ProcessSshdLogEntry per line), lines are repeated (2-4 times in a row, A B A); one private counter registry for the run; the " + prop + " oracle is evaluated from the generated fields; non-trivial = the case makes the implementation write an event; distinct by (token, line, mode)"
 }
 
+// genCase: the i-th generated case of a property's mix.  Framed delivery ("<pid> <pad><message>\n" through the syslog
+// ingester) is "as if handed over directly" only when the PID token holds no blank and the message does not begin
+// with one (padding between PID and message is ignored, C07): other cases are handed over directly.
 func genCase(r *hutil.Rand, prop string, i int) (genLine, string, runMode) {
+	g, tok, mode := genCaseMix(r, prop, i)
+	if mode.Framed && (strings.Contains(tok, " ") || strings.HasPrefix(g.Line, " ")) {
+		mode.Framed, mode.Pad = false, 0
+	}
+	return g, tok, mode
+}
+
+func genCaseMix(r *hutil.Rand, prop string, i int) (genLine, string, runMode) {
 	mode := runMode{WriteOK: true, Ready: true, Debug: i%3 == 1}
 	switch prop {
 	case "C06":
 		return genForm(r, formNames[i%len(formNames)]), genPidToken(r, false), mode /*C06LIST*/
 	case "C17":
-		if i%4 == 3 { // through the syslog ingester, as in the daemon
-			mode.Framed, mode.Pad = true, i%3
+		if i%2 == 1 { // through the syslog ingester, as in the daemon
+			mode.Framed, mode.Pad = true, (i/2)%3
+		}
+		if i%5 == 2 { // the systematic walk through the edge names (message phrases and their truncations, escapes), every form
+			return genClientNameEdge(i / 5), genPidToken(r, false), mode
 		}
 		return genClientName(r), genPidToken(r, false), mode
 	case "C11":
 		switch i % 7 {
+		case 1: // client-chosen names handed over directly, edge names first
+			if (i/7)%2 == 0 {
+				return genClientNameEdge(i / 14), genPidToken(r, false), mode
+			}
+			return genClientName(r), genPidToken(r, false), mode
 		case 3: // through the syslog ingester, as in the daemon: what reaches the processor must be the line's own bytes
 			mode.Framed, mode.Pad = true, i%3
+			if (i/7)%3 == 0 {
+				return genClientNameEdge(len(edgeNames)*len(clientForms) - 1 - i/21), genPidToken(r, false), mode
+			}
 			return genClientName(r), genPidToken(r, false), mode
 		case 5:
 			mode.Framed, mode.Pad = true, i%2
@@ -468,10 +625,26 @@ func genCase(r *hutil.Rand, prop string, i int) (genLine, string, runMode) {
 		}
 		return genHostile(r), genPidToken(r, i%3 == 0), mode
 	case "C19":
+		// the sink may reject the first one or two writes of a line and then recover, or fail for good: what is
+		// emitted must be counted once (nothing is claimed about an event that was not emitted)
+		switch (i / 3) % 8 {
+		case 2, 5:
+			mode.FailFirst = 1
+		case 6:
+			mode.FailFirst = 2
+		case 7:
+			mode.WriteOK = false
+		}
+		if mode.writeFails() && i%2 == 1 {
+			mode.Framed = true
+		}
 		switch i % 3 {
 		case 0:
 			return genHostile(r), genPidToken(r, true), mode
 		case 1:
+			if (i/3)%4 == 1 {
+				return genClientNameEdge(i / 12), genPidToken(r, false), mode
+			}
 			return genClientName(r), genPidToken(r, false), mode
 		}
 		return genForm(r, hutil.Pick(r, formNamesAll)), genPidToken(r, i%4 == 0), mode
@@ -490,17 +663,25 @@ func genCase(r *hutil.Rand, prop string, i int) (genLine, string, runMode) {
 				g = genHostile(r)
 			}
 		}
-		switch (i / 4) % 3 {
+		switch (i / 4) % 6 {
 		case 1:
 			mode.WriteOK = false
 		case 2:
 			mode.Ready = false
+		case 4: // the sink rejects the first write(s) of the line and would accept a later one: the error is to be returned
+			mode.FailFirst = 1
+		case 5:
+			mode.FailFirst = 2
+			mode.Framed = i%8 >= 4
 		}
 		return g, genPidToken(r, i%5 == 0), mode
 	case "C07":
 		mode.Framed = true
 		mode.Pad = []int{0, 0, 1, 3}[i%4]
 		if i%7 == 6 {
+			if (i/7)%2 == 0 {
+				return genClientNameEdge(i / 14), genPidToken(r, false), mode
+			}
 			return genClientName(r), genPidToken(r, false), mode
 		}
 		return genForm(r, formNames[i%len(formNames)]), genPidToken(r, false), mode
@@ -520,6 +701,7 @@ func doReplay(path, prop string) int {
 			Case   *caseDesc    `json:"case"`
 			Before []caseDesc   `json:"processed_before"`
 			Fifo   []fifoRecord `json:"fifo_records"`
+			Slow   *slowCase    `json:"slow_case"`
 		} `json:"replay"`
 	}
 	if err := json.Unmarshal(raw, &rp); err == nil && len(rp.Replay.Fifo) > 0 {
@@ -533,6 +715,9 @@ func doReplay(path, prop string) int {
 		fmt.Println("not reproduced")
 		return 0
 	}
+	if rp.Replay.Slow != nil {
+		return replaySlow(*rp.Replay.Slow)
+	}
 	if err := json.Unmarshal(raw, &rp); err != nil || rp.Replay.Case == nil {
 		fmt.Println("replay file carries no case (no failing input was found)")
 		return 2
@@ -541,6 +726,10 @@ func doReplay(path, prop string) int {
 		prop = rp.Property
 	}
 	d := *rp.Replay.Case
+	d.unseal()
+	for i := range rp.Replay.Before {
+		rp.Replay.Before[i].unseal()
+	}
 	var o observation
 	var fs []failure
 	if len(rp.Replay.Before) == 0 {
